@@ -346,6 +346,23 @@ Proof.
         split; [|split; [exact Brest|lia]].
         apply parses_chunked. apply Forall_forall. intros c Hc. apply chunk64_bounds in Hc. unfold len, two64. lia.
   - (* SNamed *) intros id s IH Hs bs v rest Hb Hl H. cbn [dec wfs enc] in *. apply IH; assumption.
+  - (* SArrOpt *) intros fs IHfs o IHo Hs bs v rest Hb Hl H. cbn [dec wfs] in *. split_ands.
+    bok H a E. destruct a as [n r]. cbv beta iota in H. destruct (dec_head_m_inv _ _ _ _ Hb E) as (Hn & Br & Sr).
+    assert (Hx : (length r <= length bs)%nat) by lia. assert (Hl' : N.of_nat (length r) < lim60) by lia.
+    destruct (n =? slen fs).
+    + bok H a E2. destruct a as [l r']. cbv beta iota in H. injection H as <- <-.
+      destruct (IHfs ltac:(assumption) _ _ _ Br Hl' E2) as (bl & Ebl & Hlen & Pbl & Brest & Sz).
+      cbn [enc]. rewrite app_length. pose proof (head_len9 4 (slen fs)). split; [|split; [exact Brest|lia]].
+      rewrite Ebl, <- Hlen. apply parses_array; [exact Pbl|].
+      match goal with Hq : (1 + slen fs <? two64) = true |- _ => apply N.ltb_lt in Hq; rewrite <- Hlen in Hq; eapply N.lt_trans; [|exact Hq]; apply N.lt_add_pos_l; reflexivity end.
+    + destruct (n =? 1 + slen fs); [|discriminate].
+      bok H a E2. destruct a as [l r1]. cbv beta iota in H. bok H a E3. destruct a as [x r2]. cbv beta iota in H. injection H as <- <-.
+      destruct (IHfs ltac:(assumption) _ _ _ Br Hl' E2) as (bl & Ebl & Hlen & Pbl & B1 & Sz1).
+      assert (Hy : (length r1 <= length bs)%nat) by lia. assert (Hl1 : N.of_nat (length r1) < lim60) by lia.
+      destruct (IHo ltac:(assumption) _ _ _ B1 Hl1 E3) as (Po & Brest & Sz2).
+      cbn [enc]. rewrite !app_length. pose proof (head_len9 4 (1 + slen fs)). split; [|split; [exact Brest|lia]].
+      rewrite Ebl, <- Hlen. apply parses_array_snoc; [exact Pbl|exact Po|].
+      match goal with Hq : (1 + slen fs <? two64) = true |- _ => apply N.ltb_lt in Hq; rewrite <- Hlen in Hq; exact Hq end.
   - (* SNil *) intros _ bs l rest Hb Hl H. cbn [dec_sl] in H. injection H as <- <-. exists []. cbn [enc_sl concat slen length].
     split; [reflexivity|]. split; [reflexivity|]. split; [constructor|]. split; [exact Hb|lia].
   - (* SCons *) intros s IH r IHr Hs bs l rest Hb Hl H. cbn [dec_sl wfs_sl] in *. split_ands.
